@@ -40,7 +40,7 @@ fn outcomes(ctx: &mut Ctx, sim: &Sim) {
 
 pub fn run_c05(ctx: &mut Ctx) {
     let p = Profile { max_concurrent: 6, ..Profile::base(sim::M_C05) };
-    let n = ctx.n(20_000, 600_000);
+    let n = ctx.n(20_000, 2_000_000);
     ctx.cases("histories", n, |ctx, case, rng| {
         let cfg = gen_cfg(rng, None, &[10, 10, 6, 3]);
         if let Some(sim) = run_history(ctx, rng, cfg, &p) {
@@ -68,7 +68,7 @@ pub fn run_c06(ctx: &mut Ctx) {
         ..Profile::base(sim::M_C06)
     };
     let learned = Profile { fast_responses: true, silence_pm: 450, ..p.clone() };
-    let n = ctx.n(25_000, 800_000);
+    let n = ctx.n(25_000, 2_500_000);
     ctx.cases("histories", n, |ctx, case, rng| {
         let mech = if rng.chance(1, 4) { Mech::ShortTerm(None) } else { Mech::None };
         let mut cfg = gen_cfg(rng, Some(mech), &[10]);
@@ -146,7 +146,7 @@ pub fn run_c11(ctx: &mut Ctx) {
         w_indication: 4,
         ..Profile::base(sim::M_C11)
     };
-    let n = ctx.n(25_000, 800_000);
+    let n = ctx.n(25_000, 2_500_000);
     ctx.cases("histories", n, |ctx, case, rng| {
         let mech = if rng.chance(1, 3) { Mech::ShortTerm(None) } else { Mech::None };
         let cfg = gen_cfg(rng, Some(mech), &[10, 4]);
@@ -172,7 +172,7 @@ pub fn run_c12(ctx: &mut Ctx) {
         fault_pm: 300,
         ..Profile::base(sim::M_C12)
     };
-    let n = ctx.n(2_400, 60_000);
+    let n = ctx.n(2_400, 200_000);
     ctx.cases("walks", n, |ctx, case, rng| {
         let limit = [0usize, 1, 2, 3, 4, 10][(case % 6) as usize];
         let cfg = gen_cfg(rng, None, &[limit]);
@@ -203,7 +203,7 @@ pub fn run_c15(ctx: &mut Ctx) {
         w_indication: 1,
         ..Profile::base(sim::M_C15)
     };
-    let n = ctx.n(1_600, 40_000);
+    let n = ctx.n(1_600, 150_000);
     ctx.cases("histories", n, |ctx, case, rng| {
         let mech = if rng.chance(1, 5) { Mech::ShortTerm(Some(false)) } else { Mech::None };
         let mut cfg = gen_cfg(rng, Some(mech), &[10]);
@@ -231,7 +231,7 @@ pub fn run_c17(ctx: &mut Ctx) {
         silence_pm: 200,
         ..Profile::base(sim::M_C17)
     };
-    let n = ctx.n(15_000, 500_000);
+    let n = ctx.n(15_000, 1_500_000);
     ctx.cases("histories", n, |ctx, case, rng| {
         let cfg = gen_cfg(rng, None, &[10, 4]);
         if let Some(sim) = run_history(ctx, rng, cfg, &p) {
@@ -247,7 +247,7 @@ pub fn run_c17(ctx: &mut Ctx) {
 fn twin_runs(ctx: &mut Ctx) {
     use crate::walk::Walk;
     let p = Profile { w_probe: 0, w_indication: 0, ..Profile::base(0) };
-    let n = ctx.n(8_000, 250_000);
+    let n = ctx.n(8_000, 800_000);
     ctx.cases("twin-runs", n, |ctx, _case, rng| {
         let cfg = gen_cfg(rng, None, &[10, 3]);
         let seed = rng.next_u64();
